@@ -36,7 +36,7 @@ units.vspec:
 """
 import re
 
-FN_KEYS = {'implraw', 'tags', 'returns', 'requires', 'ensures', 'decreases', 'unwind', 'dassert', 'paramtype', 'generics', 'where',
+FN_KEYS = {'alias', 'implraw', 'tags', 'returns', 'requires', 'ensures', 'decreases', 'unwind', 'dassert', 'paramtype', 'generics', 'where',
            'attr', 'loop', 'proof', 'rename', 'opt', 'recommends', 'site', 'lift', 'template', 'subst', 'selfname', 'paramrename', 'rettype', 'implgenerics', 'nounwind', 'via'}
 LOOP_KEYS = {'invariant', 'invariant_except_break', 'ensures', 'decreases'}
 
@@ -102,6 +102,7 @@ class FnSpec:
         self.via = None
         self.renames = {}
         self.implraw = []
+        self.aliases = []
 
     @property
     def path(self):
@@ -313,6 +314,9 @@ def parse_vspec(path, modules):
             elif key == 'attr':
                 cur_fn.attrs.append(rest.strip())
                 i += 1
+            elif key == 'alias':
+                cur_fn.aliases += rest.split()
+                i += 1
             elif key == 'implraw':
                 cur_fn.implraw.append(rest)
                 i += 1
@@ -338,7 +342,7 @@ def parse_vspec(path, modules):
                 i += 1
             elif key == 'lift':
                 # lift <closure ordinal> <fn name> (<params>) -> <ret>
-                m = re.match(r'(\d+)\s+(\w+)\s*\((.*)\)\s*(?:->\s*(.*))?$', rest)
+                m = re.match(r'(\d+)\s+([\w:<>, ]+?)\s*\((.*)\)\s*(?:->\s*(.*))?$', rest)
                 if not m:
                     err('bad lift', i)
                 cur_fn.lifts[int(m.group(1))] = {'name': m.group(2), 'params': m.group(3), 'ret': m.group(4)}
